@@ -24,7 +24,7 @@ var evC12 = ev.New("C12", "document model (1-6 columns, 0-12 rows, or 1000-2500 
 	"oracle: the frame (or the error) denoted by the document model; non-trivial = a quoted field holding a quote, delimiter or LF read in fragments of <=7 bytes, or a field of >=1024 bytes; "+
 	"distinct = FNV-64 of (document bytes, configuration, schedule)")
 
-var csvDelims = []byte{',', ',', ',', ';', '\t', '|', ' ', 'x', ',', ';', 0xFE, 0x80, 0xFF, 0x01, 0xEF}
+var csvDelims = []byte{',', ',', ',', ';', '\t', '|', ' ', 'x', ',', ';', 0xFE, 0x80, 0xFF, 0x01, 0xEF, 0x00}
 
 var intCells = []string{"0", "1", "-1", "7", "+5", "007", "42", "-0", "123456789012", "9223372036854775807", "-9223372036854775808"}
 
